@@ -293,6 +293,17 @@ func (k *kindOracle) entryFact(fn *ssa.Function, subj any, depth int) kindSet {
 
 // factAt: possible kinds of value v at instruction `at`.
 func (k *kindOracle) factAt(at ssa.Instruction, v ssa.Value, depth int) kindSet {
+	// reflect.TypeOf / ValueOf of a value whose static type is not an interface: the kind is that type's kind
+	// (reflect.TypeOf((*error)(nil)).Elem() asks Elem of a pointer type)
+	if cl, ok := v.(*ssa.Call); ok {
+		if nm := calleeName(&cl.Call); (nm == "reflect.TypeOf" || nm == "reflect.ValueOf") && len(cl.Call.Args) == 1 {
+			if mi, ok := cl.Call.Args[0].(*ssa.MakeInterface); ok {
+				if ks, ok := staticKind(mi.X.Type()); ok {
+					return ks
+				}
+			}
+		}
+	}
 	fn := at.Parent()
 	subj := subjectKey(v)
 	entry := k.entryFact(fn, subj, depth)
@@ -334,6 +345,34 @@ func (k *kindOracle) factAt(at ssa.Instruction, v ssa.Value, depth int) kindSet 
 	return f
 }
 
+// staticKind: the reflect kind of values of a non-interface static type.
+func staticKind(t types.Type) (kindSet, bool) {
+	switch u := t.Underlying().(type) {
+	case *types.Pointer:
+		return kindsOf("Pointer"), true
+	case *types.Slice:
+		return kindsOf("Slice"), true
+	case *types.Array:
+		return kindsOf("Array"), true
+	case *types.Map:
+		return kindsOf("Map"), true
+	case *types.Struct:
+		return kindsOf("Struct"), true
+	case *types.Chan:
+		return kindsOf("Chan"), true
+	case *types.Signature:
+		return kindsOf("Func"), true
+	case *types.Basic:
+		names := map[types.BasicKind]string{types.Bool: "Bool", types.Int: "Int", types.Int8: "Int8", types.Int16: "Int16", types.Int32: "Int32", types.Int64: "Int64",
+			types.Uint: "Uint", types.Uint8: "Uint8", types.Uint16: "Uint16", types.Uint32: "Uint32", types.Uint64: "Uint64", types.Uintptr: "Uintptr",
+			types.Float32: "Float32", types.Float64: "Float64", types.String: "String"}
+		if n, ok := names[u.Kind()]; ok {
+			return kindsOf(n), true
+		}
+	}
+	return 0, false
+}
+
 // hasGuard reports whether `at` is controlled by a condition accepted by pred (edge dominance).
 func hasGuard(at ssa.Instruction, pred func(c ssa.Value, want bool) bool) bool {
 	return guardedBy(at.Block(), pred)
@@ -363,8 +402,40 @@ func lenLike(v ssa.Value, subj any, method string) bool {
 			return lenLike(ms.Len, subj, method)
 		}
 	}
+	// the bound handed in by the callers: a parameter of an unexported function that every call site fills
+	// with Len() / NumField() of what it passes for the subject (`resolveSliceIndex(rv, rv.Len(), name)`)
+	if prm, ok := v.(*ssa.Parameter); ok && theProg != nil {
+		fn := prm.Parent()
+		sprm, isP := subj.(*ssa.Parameter)
+		if !isP || sprm.Parent() != fn || token.IsExported(fn.Name()) {
+			return false
+		}
+		pi, si := -1, -1
+		for i, q := range fn.Params {
+			if q == prm {
+				pi = i
+			}
+			if q == sprm {
+				si = i
+			}
+		}
+		callers := theProg.Callers(fn)
+		if pi < 0 || si < 0 || len(callers) == 0 {
+			return false
+		}
+		for _, cs := range callers {
+			args := cs.Common().Args
+			if pi >= len(args) || si >= len(args) || !lenLike(args[pi], subjectKey(args[si]), method) {
+				return false
+			}
+		}
+		return true
+	}
 	return false
 }
+
+// theProg: the program under analysis, for the few helpers that have to look at call sites.
+var theProg *Prog
 
 // boundedIndex: idx is provably within [0, method(subj)) at `at`.
 func boundedIndex(at ssa.Instruction, idx ssa.Value, subj any, method string) (bool, string) {
@@ -895,39 +966,75 @@ func fileCycleGuarded(p *Prog, comp []*ssa.Function, in map[*ssa.Function]bool) 
 		if loaderCall == nil {
 			continue
 		}
-		// 1. guard
-		var guard *ssa.If
-		eachInstr(f, func(inr ssa.Instruction) {
-			ifi, ok := inr.(*ssa.If)
-			if !ok {
-				return
-			}
-			b, ok := ifi.Cond.(*ssa.BinOp)
-			if !ok {
-				return
-			}
-			if _, isC := constInt(b.Y); !isC {
-				return
-			}
-			if !(b.Op == token.GTR || b.Op == token.GEQ) {
-				return
-			}
-			// X is len(<something>.TemplateStack) or an int parameter named depth-like
-			okQty := false
-			if cl := isCallNamed(b.X, "builtin.len"); cl != nil {
-				if strings.HasSuffix(accessPath(cl.Call.Args[0]), ".TemplateStack") {
-					okQty = true
+		// 1. guard: in the loading function itself, or before every call of it (the check may sit in
+		// the caller that decides to include)
+		guardBefore := func(g *ssa.Function, at ssa.Instruction) *ssa.If {
+			var guard *ssa.If
+			eachInstr(g, func(inr ssa.Instruction) {
+				ifi, ok := inr.(*ssa.If)
+				if !ok {
+					return
+				}
+				b, ok := ifi.Cond.(*ssa.BinOp)
+				if !ok {
+					return
+				}
+				if _, isC := constInt(b.Y); !isC {
+					return
+				}
+				if !(b.Op == token.GTR || b.Op == token.GEQ) {
+					return
+				}
+				// X is len(<something>.TemplateStack)
+				okQty := false
+				if cl := isCallNamed(b.X, "builtin.len"); cl != nil {
+					if strings.HasSuffix(accessPath(cl.Call.Args[0]), ".TemplateStack") {
+						okQty = true
+					}
+				}
+				if !okQty {
+					return
+				}
+				if blockReturnsNonNilError(ifi.Block().Succs[0]) && dominates(ifi, at) {
+					guard = ifi
+				}
+			})
+			return guard
+		}
+		guard := guardBefore(f, loaderCall)
+		where := shortName(f)
+		if guard == nil {
+			callers := 0
+			all := true
+			var names []string
+			for _, g := range p.Funcs {
+				for _, site := range callsIn(g) {
+					calls := false
+					for _, callee := range p.Callees(site) {
+						if callee == f {
+							calls = true
+						}
+					}
+					if !calls {
+						continue
+					}
+					callers++
+					if gg := guardBefore(g, site); gg != nil {
+						guard = gg
+						names = append(names, shortName(g))
+					} else {
+						all = false
+					}
 				}
 			}
-			if !okQty {
-				return
+			if callers == 0 || !all {
+				guard = nil
+			} else {
+				where = "every caller of " + shortName(f) + " (" + strings.Join(names, ", ") + ")"
 			}
-			if blockReturnsNonNilError(ifi.Block().Succs[0]) && dominates(ifi, loaderCall) {
-				guard = ifi
-			}
-		})
+		}
 		if guard == nil {
-			return false, shortName(f) + " loads a file but no dominating `len(ctx.TemplateStack) > const` guard returns an error"
+			return false, shortName(f) + " loads a file but no dominating `len(ctx.TemplateStack) > const` guard returns an error (neither there nor before each of its calls)"
 		}
 		// 2. growth: recursive calls after the loader call must receive a context from WithTemplate
 		for _, site := range callsIn(f) {
@@ -955,7 +1062,7 @@ func fileCycleGuarded(p *Prog, comp []*ssa.Function, in map[*ssa.Function]bool) 
 				return false, fmt.Sprintf("%s calls %s at %s with a context that was not extended by WithTemplate: the include chain does not grow along this edge, so the limit is never reached", shortName(f), calleeName(site.Common()), p.instrPos(site))
 			}
 		}
-		return true, "guard `len(TemplateStack) > const → error` in " + shortName(f) + " dominates the load; every recursive call after the load receives WithTemplate's context"
+		return true, "guard `len(TemplateStack) > const → error` in " + where + " dominates the load; every recursive call after the load receives WithTemplate's context"
 	}
 	return false, "no function of the cycle calls the loader directly"
 }
@@ -1019,6 +1126,10 @@ func dataCycleGuarded(p *Prog, comp []*ssa.Function, in map[*ssa.Function]bool) 
 								}
 								for ai, cp := range callee.Params {
 									if _, isMap := cp.Type().Underlying().(*types.Map); !isMap || ai >= len(callArgs(site.Common())) {
+										continue
+									}
+									// (a map of another type is something else: a result map the caller hands in to be filled)
+									if !types.Identical(cp.Type(), prm.Type()) {
 										continue
 									}
 									for _, o := range p.origins(callArgs(site.Common())[ai], OriginOpts{}) {
